@@ -44,6 +44,9 @@ func TestC08(t *testing.T) {
 				base := Bytes(rapid.Uint64().Draw(rt, "colseed"), 2*BlockSize+rapid.IntRange(0, 5000).Draw(rt, "coltail"))
 				if nd, ok := WeakCollide(base, rapid.IntRange(0, len(base)-3).Draw(rt, "coloff")); ok {
 					pair.Old["col/a.bin"], pair.Old["col/b.bin"] = &Entry{Kind: KFile, Data: base}, &Entry{Kind: KFile, Data: nd}
+					// and both variants inside one file (several entries of the same file in one bucket)
+					fb := len(base) / BlockSize * BlockSize
+					pair.Old["col/both.bin"] = &Entry{Kind: KFile, Data: append(append(append([]byte{}, base[:fb]...), nd[:fb]...), base[fb:]...)}
 				}
 				pair.Old["col/0empty"] = &Entry{Kind: KFile, Data: []byte{}}
 				fill := make([]byte, 2*BlockSize+100)
